@@ -588,6 +588,9 @@ async fn replay(inp: &str, outp: &str) {
                 None => unreal += 1,
                 Some((tok, exp_abs)) => {
                     let mut o = observe(&env, &cfg, &tok, exp_abs).await;
+                    // seconds between building the token and the end of the observation (a stalled machine
+                    // moves the time classes; the check does not judge time-sensitive cells then)
+                    o["stall_s"] = json!(now_secs() - now);
                     if row["must"] == "accept" && k == 0 {
                         // a valid token presented in any other way than as a Bearer credential
                         o["hdrvars"] = json!({
